@@ -168,3 +168,6 @@ fn deserialize_document<'a>(src: &mut LiveEvents<'a>, cfg: Cfg) -> (r: Result<Do
 fn iter_skip_to_next_document<'a>(src: &mut LiveEvents<'a>) -> (r: bool)
     ensures final(src).look is None,
 { unimplemented!() }
+
+/// what `scalar_is_nullish(text, style)` returns (proved in unit typed: plain style and the text is empty, `~` or `null` in any case)
+pub uninterp spec fn live_nullish(text: Seq<char>, style: ScalarStyle) -> bool;
